@@ -154,7 +154,8 @@ func checkC02(c *Ctx) {
 		if op.Method != "Delete" {
 			continue
 		}
-		clear := m.clearPoint(op.Fn, op.Call)
+		sfn, sat, _ := m.stopFrame(op.Call)
+		clear := m.clearPoint(sfn, sat)
 		c.check(clear != nil, "R3", "claim cleared before Delete in "+shortFn(op.Fn), op.Call, "claim Store(false) (or a call of a function that always clears it) dominates the Delete: %v", clear != nil)
 	}
 }
